@@ -42,6 +42,9 @@ pub struct GenParams {
     pub p_top: f64,
     /// nothing mentions the last package; soft requirements are drawn from it
     pub lone_last: bool,
+    /// probability that a further member of a union is a version set of the SAME
+    /// package as the first member (overlapping alternatives)
+    pub p_union_same: f64,
 }
 
 impl GenParams {
@@ -70,6 +73,7 @@ impl GenParams {
             soft: (0, 0),
             p_top: 0.0,
             lone_last: false,
+            p_union_same: 0.15,
         }
     }
 
@@ -143,6 +147,40 @@ impl GenParams {
                 p_root_union: 0.0,
                 root_reqs: (1, 3),
                 root_full: true,
+                ..b
+            },
+            "direct2" => GenParams {
+                // direct requirements with forced (single-candidate) packages next to
+                // multi-candidate ones, and constraints from transitive dependencies back
+                // onto the directly required packages
+                pkgs: (4, 7),
+                cands: (1, 4),
+                p_keep: 0.5,
+                p_allow_empty: 0.0,
+                reqs: (1, 3),
+                p_union: 0.0,
+                p_cons: 0.55,
+                p_missing: 0.0,
+                p_unknown: 0.0,
+                p_lock: 0.0,
+                p_excl: 0.0,
+                p_favored: 0.0,
+                p_root_union: 0.0,
+                p_root_cons: 0.0,
+                root_reqs: (2, 4),
+                root_full: true,
+                ..b
+            },
+            "unionoverlap" => GenParams {
+                // unions whose members are overlapping version sets of one package
+                pkgs: (3, 6),
+                cands: (2, 4),
+                p_union: 0.6,
+                p_root_union: 0.7,
+                p_union_same: 0.8,
+                p_keep: 0.6,
+                p_cons: 0.35,
+                p_allow_empty: 0.0,
                 ..b
             },
             "locks" => GenParams {
@@ -416,7 +454,8 @@ pub fn gen_universe(rng: &mut Rng, g: &GenParams) -> (Universe, Problem) {
             if rng.chance(g.p_union) {
                 let extra = rng.range(1, 2);
                 for _ in 0..extra {
-                    if let Some(j2) = pick_target(rng, i) {
+                    let j2 = if rng.chance(g.p_union_same) { Some(j) } else { pick_target(rng, i) };
+                    if let Some(j2) = j2 {
                         let v = mk_vs(rng, &u, j2, false);
                         if !r.contains(&v) {
                             r.push(v);
@@ -455,7 +494,7 @@ pub fn gen_universe(rng: &mut Rng, g: &GenParams) -> (Universe, Problem) {
         let j = names[k];
         let mut r = vec![mk_vs(rng, &u, j, g.root_full)];
         if rng.chance(g.p_root_union) {
-            let j2 = *rng.pick(&names);
+            let j2 = if rng.chance(g.p_union_same) { j } else { *rng.pick(&names) };
             let v = mk_vs(rng, &u, j2, g.root_full);
             if !r.contains(&v) {
                 r.push(v);
@@ -492,6 +531,97 @@ pub fn gen_universe(rng: &mut Rng, g: &GenParams) -> (Universe, Problem) {
         .into_iter()
         .map(|(name, matching)| Vs { name, matching })
         .collect();
+    (u, p)
+}
+
+/// C08 template: forced (single-candidate) direct requirements whose transitive
+/// dependencies have candidates that are uninstallable (found only through a
+/// conflict), candidates that constrain another direct requirement away from its
+/// best candidate, and free candidates.  A correct solver keeps deciding direct
+/// requirements first, also after learning and backjumping to the first level.
+pub fn gen_direct_template(rng: &mut Rng) -> (Universe, Problem) {
+    let mut u = Universe::default();
+    let mut vs: Vec<Vs> = Vec::new();
+    let nf = rng.range(1, 2) as usize;
+    let na = rng.range(1, 2) as usize;
+    let nt = rng.range(1, 2) as usize;
+    // package index layout: F.., A.., T.., V..
+    let mut new_pkg = |u: &mut Universe, k: u32, shuffle_rank: bool, rng: &mut Rng| -> u32 {
+        let name = u.pkg.len() as u32 + 1;
+        let mut cands = Vec::new();
+        for _ in 0..k {
+            u.solv.push(Solv { name, known: true, reqs: vec![], cons: vec![] });
+            cands.push(u.solv.len() as u32);
+        }
+        let mut rank = cands.clone();
+        if shuffle_rank {
+            rng.shuffle(&mut rank);
+        }
+        let mut listed = cands.clone();
+        rng.shuffle(&mut listed);
+        u.pkg.push(Pkg { exists: true, cands: listed, rank, ..Default::default() });
+        name
+    };
+    let f: Vec<u32> = (0..nf).map(|_| new_pkg(&mut u, 1, false, rng)).collect();
+    let a: Vec<u32> = (0..na).map(|_| { let k = rng.range(2, 4); new_pkg(&mut u, k, true, rng) }).collect();
+    let t: Vec<u32> = (0..nt).map(|_| { let k = rng.range(2, 4); new_pkg(&mut u, k, true, rng) }).collect();
+    let mut mk_vs = |name: u32, mut m: Vec<u32>| -> u32 {
+        m.sort();
+        if let Some(i) = vs.iter().position(|x| x.name == name && x.matching == m) {
+            return i as u32 + 1;
+        }
+        vs.push(Vs { name, matching: m });
+        vs.len() as u32
+    };
+    let full = |u: &Universe, n: u32| -> Vec<u32> { u.pkg[n as usize - 1].cands.clone() };
+    // forced solvables require one or two transitive packages
+    for &fp in &f {
+        let s = u.pkg[fp as usize - 1].cands[0];
+        let mut ts = t.clone();
+        rng.shuffle(&mut ts);
+        let k = rng.range(1, ts.len() as u32) as usize;
+        for &tp in ts.iter().take(k) {
+            let v = mk_vs(tp, full(&u, tp));
+            u.solv[s as usize - 1].reqs.push(vec![v]);
+        }
+    }
+    // transitive candidates: poisoned / constraining / free
+    for &tp in &t {
+        let cands = full(&u, tp);
+        for &c in &cands {
+            match rng.below(3) {
+                0 => {
+                    // poisoned: requires a package whose only candidate excludes c again
+                    let vp = new_pkg(&mut u, 1, false, rng);
+                    let vsolv = u.pkg[vp as usize - 1].cands[0];
+                    let others: Vec<u32> = cands.iter().copied().filter(|&x| x != c).collect();
+                    let cv = mk_vs(tp, others);
+                    u.solv[vsolv as usize - 1].cons.push(cv);
+                    let rv = mk_vs(vp, vec![vsolv]);
+                    u.solv[c as usize - 1].reqs.push(vec![rv]);
+                }
+                1 => {
+                    // constrains a direct package away from its best candidate
+                    let ap = *rng.pick(&a);
+                    let best = u.pkg[ap as usize - 1].rank[0];
+                    let keep: Vec<u32> = full(&u, ap).into_iter().filter(|&x| x != best && rng.chance(0.7)).collect();
+                    let keep = if keep.is_empty() { full(&u, ap).into_iter().filter(|&x| x != best).take(1).collect() } else { keep };
+                    let cv = mk_vs(ap, keep);
+                    u.solv[c as usize - 1].cons.push(cv);
+                }
+                _ => {}
+            }
+        }
+    }
+    // the root requires every forced and every choice package
+    let mut p = Problem::default();
+    let mut roots: Vec<u32> = f.iter().chain(a.iter()).copied().collect();
+    rng.shuffle(&mut roots);
+    for n in roots {
+        let v = mk_vs(n, full(&u, n));
+        p.reqs.push(vec![v]);
+    }
+    u.vs = vs;
     (u, p)
 }
 
@@ -581,6 +711,118 @@ pub fn with_hints(rng: &mut Rng, u: &Universe, mode: &str) -> Universe {
         };
     }
     v
+}
+
+/// C15, lazy discovery: the candidates of the wide package are revealed group by
+/// group along a chain of packages, so that a candidate has already been selected
+/// (and may have to be given up again) when further candidates become known; the
+/// last link additionally requires the single candidates `want`.
+pub fn wide_chain_universe(n: u32, groups: &[Vec<u32>], want: &[u32]) -> (Universe, Problem) {
+    let mut u = Universe::default();
+    let mut wide = Pkg { exists: true, ..Default::default() };
+    for s in 1..=n {
+        u.solv.push(Solv { name: 1, known: true, reqs: vec![], cons: vec![] });
+        wide.cands.push(s);
+        wide.rank.push(s);
+    }
+    u.pkg.push(wide);
+    let k = groups.len();
+    // chain packages 2..k+1, one candidate each
+    let mut chain_solv = Vec::new();
+    for gi in 0..k {
+        let name = gi as u32 + 2;
+        u.solv.push(Solv { name, known: true, reqs: vec![], cons: vec![] });
+        let s = u.solv.len() as u32;
+        chain_solv.push(s);
+        u.pkg.push(Pkg { exists: true, cands: vec![s], rank: vec![s], ..Default::default() });
+    }
+    let mut chain_vs = Vec::new();
+    for gi in 0..k {
+        u.vs.push(Vs { name: gi as u32 + 2, matching: vec![chain_solv[gi]] });
+        chain_vs.push(u.vs.len() as u32);
+    }
+    for gi in 0..k {
+        let mut m = groups[gi].clone();
+        m.sort();
+        m.dedup();
+        u.vs.push(Vs { name: 1, matching: m });
+        let gv = u.vs.len() as u32;
+        let s = chain_solv[gi] as usize - 1;
+        u.solv[s].reqs.push(vec![gv]);
+        if gi + 1 < k {
+            u.solv[s].reqs.push(vec![chain_vs[gi + 1]]);
+        } else {
+            for &w in want {
+                u.vs.push(Vs { name: 1, matching: vec![w] });
+                let wv = u.vs.len() as u32;
+                u.solv[s].reqs.push(vec![wv]);
+            }
+        }
+    }
+    let p = Problem { reqs: vec![vec![chain_vs[0]]], cons: vec![], soft: vec![] };
+    (u, p)
+}
+
+/// C15, alternatives: a selector package whose candidates (tried in order) each
+/// reveal a group of wide candidates directly and require single wide candidates
+/// through intermediate packages (shared between the alternatives).  The solver
+/// selects a wide candidate under one alternative, discovers more candidates
+/// late, conflicts, backtracks to the next alternative.
+pub fn wide_alt_universe(n: u32, alts: &[(Vec<u32>, Vec<u32>)], rng: &mut Rng) -> (Universe, Problem) {
+    let mut u = Universe::default();
+    let mut wide = Pkg { exists: true, ..Default::default() };
+    for s in 1..=n {
+        u.solv.push(Solv { name: 1, known: true, reqs: vec![], cons: vec![] });
+        wide.cands.push(s);
+        wide.rank.push(s);
+    }
+    rng.shuffle(&mut wide.rank);
+    u.pkg.push(wide);
+    // selector package
+    let mut sel = Pkg { exists: true, ..Default::default() };
+    for _ in alts {
+        u.solv.push(Solv { name: 2, known: true, reqs: vec![], cons: vec![] });
+        let s = u.solv.len() as u32;
+        sel.cands.push(s);
+        sel.rank.push(s);
+    }
+    let sel_cands = sel.cands.clone();
+    u.pkg.push(sel);
+    u.vs.push(Vs { name: 2, matching: sel_cands.clone() });
+    let root_vs = u.vs.len() as u32;
+    let mut inter: std::collections::HashMap<u32, u32> = std::collections::HashMap::new(); // wide cand -> vs of its intermediate package
+    for (ai, (group, wants)) in alts.iter().enumerate() {
+        let s = sel_cands[ai] as usize - 1;
+        if !group.is_empty() {
+            let mut m = group.clone();
+            m.sort();
+            m.dedup();
+            u.vs.push(Vs { name: 1, matching: m });
+            let gv = u.vs.len() as u32;
+            u.solv[s].reqs.push(vec![gv]);
+        }
+        for &x in wants {
+            let v = match inter.get(&x) {
+                Some(v) => *v,
+                None => {
+                    let name = u.pkg.len() as u32 + 1;
+                    u.vs.push(Vs { name: 1, matching: vec![x] });
+                    let xv = u.vs.len() as u32;
+                    u.solv.push(Solv { name, known: true, reqs: vec![vec![xv]], cons: vec![] });
+                    let is = u.solv.len() as u32;
+                    u.pkg.push(Pkg { exists: true, cands: vec![is], rank: vec![is], ..Default::default() });
+                    u.vs.push(Vs { name, matching: vec![is] });
+                    let iv = u.vs.len() as u32;
+                    inter.insert(x, iv);
+                    iv
+                }
+            };
+            if !u.solv[s].reqs.contains(&vec![v]) {
+                u.solv[s].reqs.push(vec![v]);
+            }
+        }
+    }
+    (u, Problem { reqs: vec![vec![root_vs]], cons: vec![], soft: vec![] })
 }
 
 /// C15: one package with n candidates revealed by `groups` (a partition of
